@@ -12,6 +12,7 @@ INFO = {
         'replayed in floats against an mpmath evaluation (50 digits) of the closed form at 1e-9 absolute.'),
     'bounds': {
         'quick': 'five models x three operations x shapes (1,1),(2,1),(2,2),(1,1,1),(1,2,1),(1,1,1,1),(3,2),(2,2,2),(1,2,1,2),(1,1,1,1,1)',
+        'quick+': 'aliasing cells: the same team list entered as first and last team for (1,1), (2,1,2), (1,1,1,1), the latter also with one rating object in two teams',
         'thorough': '+ (8,8), 6x1, 8x1, (3,1,4,1,5), (2,3,2,3,2,3), (8,1,8)',
     },
     'outside': ['IEEE rounding of the evaluation (the 1e-9 absolute figure is only evaluated in replays)', 'shapes not listed (the code is shape-generic; listed shapes reach 8 teams and 8 players)'],
@@ -33,6 +34,10 @@ def jobs(tier):
                 cost = n * n
                 out.append({'name': f'{key}-{op}-{H.shape_str(shape)}', 'model': key, 'op': op, 'shape': list(shape),
                             'budget': 300 if tier == 'quick' else 1800, 'cost': cost})
+            # the same list object entered as the first and the last team (and, for three teams, the same rating object in two teams)
+            for shape in ((1, 1), (2, 1, 2), (1, 1, 1, 1)):
+                out.append({'name': f'{key}-{op}-{H.shape_str(shape)}-alias', 'model': key, 'op': op, 'shape': list(shape), 'alias': True,
+                            'budget': 300 if tier == 'quick' else 1800, 'cost': len(shape) ** 2})
     return out
 
 
@@ -43,6 +48,15 @@ def _ref(op, P, prior, beta, inv_cdf):
     if op == 'predict_draw':
         return R.predict_draw_ref(P, prior, beta, inv_cdf)
     return R.predict_rank_probs_ref(P, prior, beta, inv_cdf)
+
+
+def _teams(m, shape, mkf, alias):
+    teams = PR.build_teams(m, shape, mkf)
+    if alias:
+        teams[-1] = teams[0]
+        if len(shape) == 4:
+            teams[2] = [teams[1][0]]  # the same rating object in two different team lists
+    return teams
 
 
 def run_job(spec, ctx):
@@ -69,7 +83,7 @@ def run_job(spec, ctx):
 
     def run_with(mkf, prims):
         m = Model(beta=mkf('beta'))
-        teams = PR.build_teams(m, shape, mkf)
+        teams = _teams(m, shape, mkf, spec.get('alias'))
         prior = [[(p.mu, p.sigma) for p in t] for t in teams]
         code = PR.call(m, op, teams)
         if op == 'predict_rank':
@@ -107,7 +121,7 @@ def run_job(spec, ctx):
             neg = z3.Or(*diffs)
             r, m = eng.check(neg, timeout=60000)
             if r == 'sat':
-                cands = [{'inputs': inp, 'model': key, 'op': op, 'shape': list(shape)}
+                cands = [{'inputs': inp, 'model': key, 'op': op, 'shape': list(shape), 'alias': bool(spec.get('alias'))}
                          for inp in H.witness_models(eng, neg, names, [z3.Real('beta') == z3.RealVal('25/6')])]
                 H.mark_last(cands)
                 ctx.ob(f'{op} == closed form', 'sat' if cands else 'unknown', cands, sample=sample)
@@ -148,6 +162,8 @@ def replay(cand):
     key, op, shape = cand['model'], cand['op'], tuple(cand['shape'])
     inp = cand['inputs']
     m, teams = PR.float_teams(key, shape, inp)
+    if cand.get('alias'):
+        teams = _teams(m, shape, H.float_maker(inp), True)
     prior = [[(p.mu, p.sigma) for p in t] for t in teams]
     code = PR.call(m, op, teams)
     if op == 'predict_rank':
@@ -156,5 +172,5 @@ def replay(cand):
     cl = code if isinstance(code, list) else [code]
     rl = ref if isinstance(ref, list) else [ref]
     worst = max([abs(float(a) - float(b)) for a, b in zip(cl, rl)] + ([1.0] if len(cl) != len(rl) else []))
-    return {'violated': bool(worst > 1e-9), 'key': f'{key}:{op}:{H.shape_str(shape)}',
-            'detail': f'C12 {H.MODEL_NAMES[key]}.{op} shape={shape} inputs={inp}: returns {cl}, closed form {[float(x) for x in rl]} (max abs diff {worst:.3g})'}
+    return {'violated': bool(worst > 1e-9), 'key': f'{key}:{op}:{H.shape_str(shape)}' + (':alias' if cand.get('alias') else ''),
+            'detail': f'C12 {H.MODEL_NAMES[key]}.{op} shape={shape}{" (first team list re-entered as last team)" if cand.get("alias") else ""} inputs={inp}: returns {cl}, closed form {[float(x) for x in rl]} (max abs diff {worst:.3g})'}
